@@ -161,7 +161,7 @@ func init() {
 					}
 					bad := ""
 					for _, f := range r.W.AllFuncs(pkg) {
-						ast.Inspect(f.Body(), func(x ast.Node) bool {
+						core.InspectBody(f, func(x ast.Node) bool {
 							if call, ok := x.(*ast.CallExpr); ok {
 								if fn := core.Callee(f.Info(), call); fn != nil && fn.Name() == "SetStreamHandler" {
 									bad = r.W.Pos(call.Pos())
@@ -232,7 +232,7 @@ func init() {
 					c := f.Ctx()
 					label := f.Name + ": notExistTxIndices only holds range indices over the block's tx slice"
 					good, bad := 0, ""
-					ast.Inspect(f.Body(), func(x ast.Node) bool {
+					core.InspectBody(f, func(x ast.Node) bool {
 						as, ok := x.(*ast.AssignStmt)
 						if !ok || len(as.Lhs) != 1 || len(as.Rhs) != 1 || !core.IsObj(bcast + "pendBlock.notExistTxIndices")(c, as.Lhs[0]) {
 							return true
@@ -306,7 +306,7 @@ func init() {
 							continue
 						}
 						for _, f := range r.W.AllFuncs(pkg) {
-							ast.Inspect(f.Body(), func(x ast.Node) bool {
+							core.InspectBody(f, func(x ast.Node) bool {
 								call, ok := x.(*ast.CallExpr)
 								if !ok {
 									return true
